@@ -413,6 +413,13 @@ func c13Case(c *runner.Ctx, idx uint64) {
 			c.Count("runtime_fault_did_not_fail", 1)
 			continue
 		}
+		if vi == 2 && !c13PlantedMessage(f.class, o.Err.Error()) {
+			// compiled without type information another operation may fail first
+			// (e.g. `-(7 * Y) == len(xs)` is specialised to OpEqualInt because
+			// int * interface{} is typed int): not the planted fault
+			c.Count("untyped_run_failed_elsewhere", 1)
+			continue
+		}
 		judge(o.Err, "run/"+stage)
 	}
 	if c.WantSample() {
@@ -591,4 +598,32 @@ func init() {
 			return out
 		},
 	})
+}
+
+// c13PlantedMessage reports whether a run-time error message belongs to the
+// planted fault class.
+func c13PlantedMessage(class, msg string) bool {
+	has := func(xs ...string) bool {
+		for _, x := range xs {
+			if strings.Contains(msg, x) {
+				return true
+			}
+		}
+		return false
+	}
+	switch class {
+	case "runtime-division-by-zero", "runtime-panicking-function":
+		return has("integer divide by zero")
+	case "runtime-index-out-of-range":
+		return has("index out of range")
+	case "runtime-nil-field":
+		return has("cannot fetch")
+	case "runtime-panicking-method":
+		return has("nil pointer", "invalid memory address")
+	case "runtime-bad-regexp":
+		return has("error parsing regexp")
+	case "runtime-non-bool-operand-of-connective":
+		return has("interface conversion")
+	}
+	return true
 }
